@@ -7,7 +7,7 @@
 //@ include prelude/state.rs
 //@ include prelude/opaque.rs
 //@ include prelude/ansi_term.rs
-//@ shims merge_conflict grep tabs utils::tabs utils::path utils::process config features::hyperlinks features::line_numbers features::side_by_side draw diff_header hunk_header handlers::diff_header handlers::hunk_header handlers::merge_conflict handlers::grep cli style paint delta line_numbers side_by_side
+//@ shims merge_conflict grep tabs utils::tabs utils::path utils::process utils::round_char_boundary config features::hyperlinks features::line_numbers features::side_by_side draw diff_header hunk_header handlers::diff_header handlers::hunk_header handlers::merge_conflict handlers::grep cli style paint delta line_numbers side_by_side
 //@ broadcast vax::vax_group rax::rax_group r2x_group otx_group
 //@ include prelude/style.rs
 //@ type src/cli.rs Width
